@@ -158,6 +158,12 @@ def run(chk, cmds=None):
     chk.cov["calibration_session_s"] = round(cal_s, 2)
     lines = LC.run_cmds(exe, ["w=128", "h=128", "enc_mode=8", "lp=4", "stream=" + stream, "watchdog=%d" % wd], cmds)
     res = cal + parse(lines)
+    # other thread-pool shapes and the screen-content path: with 2 or 3 logical processors the per-stage thread counts differ from each other
+    # (seeded change C15-1: a thread array destroyed with another stage's count), and screen_content_mode = 1 allocates the intra-block-copy
+    # hash tables that only the picture-control-set destructor releases (seeded change C15-2)
+    for extra_args, extra_cmds in ((["lp=2"], ["enc init 0 0 0", "enc drained 3 0 0"]), (["lp=3"], ["enc init 0 0 0", "enc drained 3 0 0"]),
+                                   (["lp=4", "scm=1"], ["enc drained 6 0 0", "enc init 0 0 0"])):
+        res += parse(LC.run_cmds(exe, ["w=128", "h=128", "enc_mode=8", "stream=" + stream, "watchdog=%d" % wd] + extra_args, extra_cmds))
     sym = LC.Symbols(exe)
     known, unknown = {}, []
     hist = {}
